@@ -242,6 +242,31 @@ pub fn run(ctx: &mut Ctx) {
                 );
                 ctx.stat(&format!("literal_{}", ans.split(' ').next().unwrap()));
             }
+            // an IP literal that arrives as a host name (`GET http://127.0.0.1/` without a port, a CONNECT
+            // authority the socket-address parser does not take): the name goes through the real resolver
+            // call (no script for it), which answers with the literal itself - the policy applies as to any name
+            for ip in &pool {
+                let mut texts = vec![ip.to_string()];
+                if ip.is_ipv6() {
+                    texts.push(format!("[{}]", ip));
+                }
+                for text in texts {
+                    let port = 1000 + ctx.rng.below(60000) as u16;
+                    verif::hooks::reset();
+                    verif::hooks::STATE.lock().unwrap().stub_tcp_connect_errno = Some(libc::ENETUNREACH);
+                    let o = rt.block_on(verif::tcp_forwarder_connect(
+                        &core,
+                        verif::VTcpDestination::HostName(text.clone(), port),
+                    ));
+                    let attempts = verif::hooks::STATE.lock().unwrap().tcp_connects.clone();
+                    let ans = outcome_str(&o, &attempts);
+                    ctx.emit(
+                        &format!("c03 connect {} {} host 1 {} {}", allow as u8, v6ok as u8, ip_tokens(ip), port),
+                        &ans,
+                    );
+                    ctx.stat(&format!("literal_as_host_name_{}", ans.split(' ').next().unwrap()));
+                }
+            }
             // host names: all answer lists of length 0..2 over the pool (quick: sampled), random longer ones
             let mut lists: Vec<Vec<IpAddr>> = vec![vec![]];
             for a in &pool {
@@ -344,6 +369,20 @@ pub fn run(ctx: &mut Ctx) {
                 verif::tcp_forwarder_connect(&core, verif::VTcpDestination::Address(*sp)),
             )
             .await;
+        }
+        // the same spellings as host names (IP literal text, bracketed for IPv6)
+        for sp in &spellings {
+            let mut texts = vec![sp.ip().to_string()];
+            if sp.is_ipv6() {
+                texts.push(format!("[{}]", sp.ip()));
+            }
+            for text in texts {
+                let _ = tokio::time::timeout(
+                    std::time::Duration::from_millis(500),
+                    verif::tcp_forwarder_connect(&core, verif::VTcpDestination::HostName(text, sp.port())),
+                )
+                .await;
+            }
         }
         // host names resolving to the canaries
         for (i, t) in targets.iter().enumerate() {
